@@ -3,6 +3,7 @@ pub fn run(args: &[String]) {
     match args.first().map(|s| s.as_str()) {
         Some("salts") => super::c08::child_salts(),
         Some("keygen") => super::c15::child_keygen(&args[1..]),
+        Some("history") => crate::history::child_history(&args[1..]),
         _ => std::process::exit(2),
     }
     std::process::exit(0)
